@@ -60,7 +60,7 @@ func FewLong(n int) InputSet {
 
 // LargeSet is the family of LargeTexts(n).
 func LargeSet(n int) InputSet {
-	return InputSet{fmt.Sprintf("{deBruijn(4,8), Fibonacci, dictionary text} of %d bytes", n), func(f func([]byte)) {
+	return InputSet{fmt.Sprintf("{deBruijn(4,8), Fibonacci, dictionary text, (abcde)^k} of %d bytes", n), func(f func([]byte)) {
 		for _, t := range LargeTexts(n) {
 			f(t)
 		}
@@ -249,13 +249,13 @@ func parserLayers(tier string, menu Menu) []Layer {
 			{Name: "sa-b2", Kinds: suffixKinds, BufSizes: []int{3}, Level: 0, Inputs: Binary(4), Menu: menu, Bound: 2},
 			{Name: "sa-long", Kinds: suffixKinds, BufSizes: []int{16, 100}, Level: 0, Inputs: StructuredSet(17, 40, 130), Menu: menu, Bound: 0},
 			{Name: "sa-multiblock", Kinds: suffixKinds, Geos: multiBlockGeos, Level: 0, Inputs: Union(Binary(8), Ternary(5)), Menu: menu.and(Menu{NTL: true, ParseNil: true, StopEarly: true, ShrinkDev: true}), Bound: 2, CfgPerShard: 1},
-			{Name: "large", Kinds: Kinds, CfgsFn: largeConfigs, Inputs: Union(LargeSet(70000), LargeSet(200003)), Menu: menu, Bound: 1, CfgPerShard: 1, NoTrack: true},
+			{Name: "large", Kinds: Kinds, CfgsFn: largeConfigs, Inputs: Union(LargeSet(140000), LargeSet(200003)), Menu: menu, Bound: 1, CfgPerShard: 1, NoTrack: true},
 			{Name: "hash-trickle", Kinds: HashKinds, BufSizes: []int{5, 8}, Level: 2, Inputs: Union(Binary(8), ZeroA(5)), Menu: trickle(menu), Bound: 2, NoTrack: true},
 			{Name: "sa-trickle", Kinds: suffixKinds, Geos: multiBlockGeos, Level: 0, Inputs: Union(Binary(8), Ternary(5)), Menu: trickle(menu), Bound: 2, CfgPerShard: 1},
 		}
 	}
 	return []Layer{
-		{Name: "large", Kinds: Kinds, CfgsFn: largeConfigs, Inputs: LargeSet(70000), Menu: menu.and(Menu{ReadFrom: true, NTL: true, ParseNil: true}), Bound: 1, CfgPerShard: 1, NoTrack: true},
+		{Name: "large", Kinds: Kinds, CfgsFn: largeConfigs, Inputs: LargeSet(140000), Menu: menu.and(Menu{ReadFrom: true, NTL: true, ParseNil: true}), Bound: 1, CfgPerShard: 1, NoTrack: true},
 		{Name: "hash-b0", Kinds: HashKinds, BufSizes: allQuickBuf, Level: 0, Inputs: Union(Binary(8), Ternary(5), ZeroA(6)), Menu: menu, Bound: 0},
 		{Name: "hash-b1", Kinds: HashKinds, BufSizes: []int{2, 3, 5, 8}, Level: 0, Inputs: Union(Binary(5), ZeroA(4)), Menu: menu, Bound: 1},
 		{Name: "hash-b2", Kinds: HashKinds, BufSizes: []int{3}, Level: 0, Inputs: Binary(4), Menu: menu, Bound: 2, NoTrack: true},
